@@ -48,7 +48,7 @@ type C08Case struct {
 
 func init() {
 	register("C08",
-		"programs from the core generator with range restrictions removed (all 15 assignment operators x boundary operands 0, +-1, +-2^63, 2^31, 63, 64, -1, huge/tiny floats, division/remainder by zero, negative/oversized shift and rotate counts, cross-type operands, empty and not-set strings), every built-in of builtin.yml called with boundary arguments of its declared types in a scope it allows, lifecycle VCLs with unconditional restart / return(restart) / error / self- and mutual recursion in every sub, self- and mutually-including modules, requests with arbitrary method/path/query/headers (1-3 per simulator), and the same statements through ProcessTestSubroutine; oracle: the call returns a response or a reported error within the deadline, no panic / fatal error / worker death, vcl_recv entered <= 4 times and restarts <= 3 per request. non-trivial: executes an arithmetic edge case, a built-in with a boundary argument, a recursion, a restart or an include cycle; distinct by case",
+		"programs from the core generator with range restrictions removed (all 15 assignment operators x boundary operands 0, +-1, +-2^63, 2^31, 63, 64, -1, huge/tiny floats, division/remainder by zero, negative/oversized shift and rotate counts, cross-type operands, empty and not-set strings), every built-in of builtin.yml called with boundary arguments of its declared types in a scope it allows (STRING arguments also from two grammars with error productions: key=value field lists with unclosed/lone/empty quotes, percent-encoded text with truncated escapes), header sub-field reads/writes over such field lists, lifecycle VCLs with unconditional restart / return(restart) / error / self- and mutual recursion in every sub, self- and mutually-including modules, requests with arbitrary method/path/query/headers (1-3 per simulator), reads of every predefined variable of predefined.yml in the scopes the table allows (and in others), and the same statements through ProcessTestSubroutine (the test runner's entry) in every scope; oracle: the call returns a response or a reported error within the deadline, no panic / fatal error / worker death, vcl_recv entered <= 4 times and restarts <= 3 per request. non-trivial: executes an arithmetic edge case, a built-in with a boundary argument, a recursion, a restart or an include cycle; distinct by case",
 		genC08, checkC08, 20*time.Second)
 	iso.DeathClassifier["C08"] = func(raw json.RawMessage, kind, stderr string) string {
 		var c C08Case
@@ -100,7 +100,41 @@ var edgeIDs = []string{"tbl", "tbl_int", "acl_x", "b", "rc", "pb", "nope", "aes1
 var edgeIPs = []string{`"127.0.0.1"`, `"::1"`, "client.ip", `"999.1.1.1"`, `"0.0.0.0"`, "server.ip", `"255.255.255.255"`}
 var edgeTimes = []string{"now", "std.integer2time(0)", "std.integer2time(-1)", "std.integer2time(9223372036854775807)", "std.integer2time(253402300800)", "now.sec", "time.start"}
 
+// kvHostile: a header-like list of key[=value] fields from a grammar with error productions (unclosed,
+// lone and empty quotes, missing values, doubled separators), keys from {a, b, lang}.
+func kvHostile(t *rapid.T) string {
+	sep := rapid.SampledFrom([]string{", ", ",", "; ", ";", "&", " "}).Draw(t, "kvsep")
+	n := rapid.IntRange(1, 3).Draw(t, "kvn")
+	var fs []string
+	for i := 0; i < n; i++ {
+		k := rapid.SampledFrom([]string{"a", "b", "lang", "A", ""}).Draw(t, "kvkey")
+		v := rapid.SampledFrom([]string{"=1", "=x y", "=\"q\"", "=\"q r\"", "=\"", "=\" x", "=\"\"", "=\"a\\\"b\"", "=", "", "==", "=\"x\"y", "= \"", "=\"\"\"", "='"}).Draw(t, "kvval")
+		fs = append(fs, k+v)
+	}
+	return strings.Join(fs, sep) + rapid.SampledFrom([]string{"", "", " ", ",", ";"}).Draw(t, "kvtail")
+}
+
+// urlHostile: percent-encoded text with truncated and malformed escapes.
+func urlHostile(t *rapid.T) string {
+	n := rapid.IntRange(1, 4).Draw(t, "urln")
+	var b strings.Builder
+	for i := 0; i < n; i++ {
+		b.WriteString(rapid.SampledFrom([]string{"a", "x=1", "%41", "%4", "%", "%zz", "%u0041", "%u00", "+", "&", "=", "?", "#", "/", "%00", "%2", "100%", "%%", "%e3%81", "é"}).Draw(t, "urlpiece"))
+	}
+	return b.String()
+}
+
 func drawArg(t *rapid.T, typ string) string {
+	if typ == "STRING" {
+		switch rapid.IntRange(0, 9).Draw(t, "structured") {
+		case 0:
+			return vclString(kvHostile(t))
+		case 1:
+			return vclString(urlHostile(t))
+		case 2:
+			return rapid.SampledFrom([]string{`"a"`, `"b"`, `"lang"`, `","`, `";"`, `"&"`}).Draw(t, "kvarg")
+		}
+	}
 	pick := func(xs []string) string { return rapid.SampledFrom(xs).Draw(t, "arg") }
 	switch typ {
 	case "STRING":
@@ -154,7 +188,25 @@ var allAssignOps = []string{"=", "+=", "-=", "*=", "/=", "%=", "|=", "&=", "^=",
 var c08Targets = map[string]string{"var.i1": "INTEGER", "var.i2": "INTEGER", "var.f1": "FLOAT", "var.f2": "FLOAT", "var.s1": "STRING", "var.s2": "STRING",
 	"var.b1": "BOOL", "var.r1": "RTIME", "var.r2": "RTIME", "var.t1": "TIME", "var.ip1": "IP", "req.http.X": "STRING", "req.http.Never-Set": "STRING"}
 
-func genArithStmts(t *rapid.T, n int) (string, []string) {
+var c08ScopeVars = map[string][]string{}
+
+// c08VarsIn: the readable predefined variables predefined.yml allows in a scope.
+func c08VarsIn(scope string) []string {
+	c05Load()
+	if v, ok := c08ScopeVars[scope]; ok {
+		return v
+	}
+	var out []string
+	for _, n := range c05VarNames {
+		if sp := c05Vars[n]; sp.Get != "" && c05On(sp.On, scope) {
+			out = append(out, n)
+		}
+	}
+	c08ScopeVars[scope] = out
+	return out
+}
+
+func genArithStmts(t *rapid.T, n int, scope string, varReadOneIn int) (string, []string) {
 	var b strings.Builder
 	feat := map[string]bool{}
 	names := make([]string, 0, len(c08Targets))
@@ -163,6 +215,44 @@ func genArithStmts(t *rapid.T, n int) (string, []string) {
 	}
 	sort.Strings(names)
 	for i := 0; i < n; i++ {
+		if rapid.IntRange(1, varReadOneIn).Draw(t, "varread") == 1 {
+			// read of a predefined variable of predefined.yml into a local of its type: three times out of four
+			// one the table allows in the scope the case runs in, else any (an out-of-scope read has to end in
+			// a reported error)
+			c05Load()
+			names := c05VarNames
+			if in := c08VarsIn(scope); len(in) > 0 && rapid.IntRange(0, 3).Draw(t, "inscope") > 0 {
+				names = in
+			}
+			name := rapid.SampledFrom(names).Draw(t, "pvar")
+			spec := c05Vars[name]
+			tgt := map[string]string{"STRING": "var.s2", "INTEGER": "var.i2", "FLOAT": "var.f2", "BOOL": "var.b1", "RTIME": "var.r2", "TIME": "var.t1", "IP": "var.ip1", "BACKEND": "var.be"}[spec.Get]
+			if tgt != "" {
+				inst := c05Instantiate(name)
+				if strings.HasPrefix(inst, "director.d.") {
+					inst = strings.Replace(inst, "director.d.", "director.dir_r.", 1)
+				}
+				fmt.Fprintf(&b, "set %s = %s;\n", tgt, inst)
+				feat["predefined-variable-read"] = true
+				continue
+			}
+		}
+		if rapid.IntRange(0, 11).Draw(t, "subfield") == 0 {
+			// header sub-field read / write over a header holding a malformed field list
+			h := rapid.SampledFrom([]string{"req.http.X", "req.http.Cookie", "req.http.K"}).Draw(t, "sfhdr")
+			k := rapid.SampledFrom([]string{"a", "b", "lang", "A"}).Draw(t, "sfkey")
+			fmt.Fprintf(&b, "set %s = %s;\n", h, vclString(kvHostile(t)))
+			switch rapid.IntRange(0, 3).Draw(t, "sfop") {
+			case 0:
+				fmt.Fprintf(&b, "set %s:%s = %s;\n", h, k, drawArg(t, "STRING"))
+			case 1:
+				fmt.Fprintf(&b, "unset %s:%s;\n", h, k)
+			default:
+				fmt.Fprintf(&b, "set var.s2 = %s:%s;\n", h, k)
+			}
+			feat["header-subfield-malformed"] = true
+			continue
+		}
 		if rapid.IntRange(0, 6).Draw(t, "concat") == 0 {
 			// string concatenation of 2-3 operands of any type, each optionally sign-prefixed
 			k := rapid.IntRange(2, 3).Draw(t, "noperands")
@@ -270,7 +360,7 @@ func genC08(t *rapid.T) any {
 	switch kind {
 	case "arith", "testsub":
 		c.Scope = rapid.SampledFrom(allScopeNames).Draw(t, "scope")
-		c.Src, c.Feat = genArithStmts(t, rapid.IntRange(1, pick(12, 30)).Draw(t, "n"))
+		c.Src, c.Feat = genArithStmts(t, rapid.IntRange(1, pick(12, 30)).Draw(t, "n"), c.Scope, map[string]int{"arith": 8, "testsub": 2}[kind])
 	case "builtin":
 		name := rapid.SampledFrom(builtinNames).Draw(t, "fn")
 		spec := builtinTable[name]
@@ -292,6 +382,12 @@ func genC08(t *rapid.T) any {
 		var args []string
 		for _, ty := range sig {
 			a := drawArg(t, ty)
+			if ty == "STRING" && (strings.Contains(name, "url") || strings.Contains(name, "querystring")) && rapid.Bool().Draw(t, "urlish") {
+				a = vclString(urlHostile(t))
+			}
+			if ty == "STRING" && strings.Contains(name, "subfield") && rapid.Bool().Draw(t, "kvish") {
+				a = vclString(kvHostile(t))
+			}
 			if a != "" {
 				args = append(args, a)
 			}
